@@ -39,7 +39,15 @@ pub type ParseResult<T> = Result<T, ParserError>;
 pub struct Parser {
     lexer: Lexer,
     current_token: Token,
+    /// Nesting depth of the expression / sub-select being parsed (see [`MAX_NESTING_DEPTH`]).
+    depth: usize,
 }
+
+/// Deepest nesting of expressions, operator chains, joins and sub-selects the parser accepts.
+/// The parser, the binder, the planner and the evaluator all recurse over the syntax tree on a
+/// worker's stack (2 MiB), so an unbounded depth lets a single statement overflow it and take the
+/// whole process down. Unoptimised builds overflow at a depth of about 100.
+pub(crate) const MAX_NESTING_DEPTH: usize = 64;
 
 impl Parser {
     pub fn new(sql: &str) -> Self {
@@ -48,7 +56,19 @@ impl Parser {
         Parser {
             lexer,
             current_token,
+            depth: 0,
         }
+    }
+
+    /// Accounts for `levels` more levels of nesting; fails once the statement is nested too deeply.
+    fn enter_nesting(&mut self, levels: usize) -> ParseResult<()> {
+        self.depth += levels;
+        if self.depth > MAX_NESTING_DEPTH {
+            return Err(ParserError::InvalidExpression(format!(
+                "statement nested deeper than {MAX_NESTING_DEPTH} levels"
+            )));
+        }
+        Ok(())
     }
 
     fn next_token(&mut self) {
@@ -88,6 +108,14 @@ impl Parser {
     /// Obtains the expression binding power using a Pratt Parsing approach.
     /// I recommend this read on Pratt Parsing: https://matklad.github.io/2020/04/13/simple-but-powerful-pratt-parsing.html
     fn parse_expr_bp(&mut self, min_bp: u8) -> ParseResult<Expr> {
+        let entry_depth = self.depth;
+        let result = self.parse_expr_bp_at_depth(min_bp);
+        self.depth = entry_depth;
+        result
+    }
+
+    fn parse_expr_bp_at_depth(&mut self, min_bp: u8) -> ParseResult<Expr> {
+        self.enter_nesting(1)?;
         let mut lhs = self.parse_prefix()?;
 
         while let Some((l_bp, r_bp)) = self.infix_binding_power() {
@@ -95,6 +123,8 @@ impl Parser {
                 break;
             }
 
+            // Every operator of a chain (`a + b + c + …`) wraps the tree built so far.
+            self.enter_nesting(1)?;
             lhs = self.parse_infix(lhs, r_bp)?;
         }
 
@@ -1176,6 +1206,15 @@ impl Parser {
     /// LIMIT n;
     /// ```
     fn parse_select_statement(&mut self) -> ParseResult<SelectStatement> {
+        let entry_depth = self.depth;
+        let result = self.parse_select_statement_at_depth();
+        self.depth = entry_depth;
+        result
+    }
+
+    fn parse_select_statement_at_depth(&mut self) -> ParseResult<SelectStatement> {
+        // A sub-select costs the later stages more stack than an operator does.
+        self.enter_nesting(2)?;
         self.expect(Token::Select)?;
 
         let distinct = self.consume_if(&Token::Distinct);
@@ -1336,10 +1375,20 @@ impl Parser {
     /// FROM table1, table2, table3
     /// ```
     fn parse_table_ref(&mut self) -> ParseResult<TableReference> {
+        let entry_depth = self.depth;
+        let result = self.parse_table_ref_at_depth();
+        self.depth = entry_depth;
+        result
+    }
+
+    fn parse_table_ref_at_depth(&mut self) -> ParseResult<TableReference> {
         let mut table_ref = self.parse_single_table_ref()?;
 
         // Parse optional JOINs and comma-separated tables
         loop {
+            // Every join wraps the join tree built so far.
+            self.enter_nesting(1)?;
+
             // Check for comma first (implicit cross join)
             if self.consume_if(&Token::Comma) {
                 let right = self.parse_single_table_ref()?;
